@@ -20,15 +20,33 @@ def trial_order(run, snap):
         return None
     by_y = {}
     for it in inner:
-        by_y.setdefault(np.asarray(it.y, dtype=np.double).tobytes(), []).append(it.x)
+        by_y.setdefault(np.asarray(it.y, dtype=np.double).tobytes(), []).append((it.x, it.z))
     xs = []
-    for (y, _) in log:
+    twins = False
+    for (y, v) in log:
         c = by_y.get(np.asarray(y, dtype=np.double).tobytes())
-        if not c or len(c) != 1:
+        if not c:
             xs = None
             break
-        xs.append(c[0])
-    if xs is not None and len(set(xs)) == len(xs):
+        if len(c) > 1:
+            # several coordinates share one evaluated point (N >= 2: one grid cell; N = 1: adjacent doubles): tell
+            # them apart by the stored value; trials with equal point AND equal value are interchangeable
+            twins = True
+            k = next((i for i, (_, z) in enumerate(c) if z == v), None)
+            if k is None:
+                xs = None
+                break
+            xs.append(c.pop(k)[0])
+        else:
+            if c[0][1] != v and not (c[0][1] is None):
+                pass
+            xs.append(c.pop(0)[0])
+    if xs is not None and len(set(xs)) == len(xs) == len(inner):
+        if not twins:
+            return xs
+        xl = list(getattr(run, "xlog", ()))
+        if len(xl) == len(log) and all(x is not None for x in xl) and sorted(xl) == [it.x for it in inner]:
+            return xl      # the listener saw the true order
         return xs
     xl = list(getattr(run, "xlog", ()))
     if len(xl) == len(log) and all(x is not None for x in xl) and sorted(xl) == [it.x for it in inner]:
@@ -42,9 +60,9 @@ def resolution_horizon(run, cfg):
     4 doubles apart - no double lies strictly inside it.  That is the C03 known finding (resolution
     horizon); no trial is placed, so the properties about placed trials have no obligation there."""
     from mc.env import ulp_dist
-    xs = list(getattr(run, "xlog", ()))
     zs = [v for _, v in run.problem.log]
-    if len(xs) < 2 or len(xs) != len(zs) or any(x is None for x in xs):
+    xs = trial_order(run, Snapshot(run.solver))     # (a batch that raised never reached its listeners)
+    if xs is None or len(xs) < 2 or len(xs) != len(zs):
         return False
     ref = RefAGP(cfg["N"], cfg.get("r", 2.0))
     for x, z in zip(xs, zs):
